@@ -16,7 +16,12 @@ import traceback
 
 VERIF = os.path.dirname(os.path.dirname(os.path.abspath(__file__)))
 LEAN = os.path.join(VERIF, "lean")
-BIN = os.path.join(LEAN, ".lake", "build", "bin", "u3model")
+BINDIR = os.path.join(LEAN, ".lake", "build", "bin")
+BIN = BINDIR  # kept for old callers: existence of the bin directory
+
+
+def model_bin(model: str) -> str:
+    return os.path.join(BINDIR, "u3-" + model)
 WORK = os.path.join(VERIF, ".work")
 OUT = os.path.join(VERIF, "out")
 REPO = os.environ.get("U3_REPO", "/repo")
@@ -71,9 +76,9 @@ def run_model(model: str, lines: list[str], tag: str = "") -> list[str]:
         f.write("\n".join(lines))
         f.write("\n")
     with open(base + ".in") as fin, open(base + ".out", "w") as fout:
-        p = subprocess.run([BIN, model], stdin=fin, stdout=fout, stderr=subprocess.PIPE)
+        p = subprocess.run([model_bin(model)], stdin=fin, stdout=fout, stderr=subprocess.PIPE)
     if p.returncode != 0:
-        raise RuntimeError(f"u3model {model} exited {p.returncode}: {p.stderr.decode()[:500]}")
+        raise RuntimeError(f"u3-{model} exited {p.returncode}: {p.stderr.decode()[:500]}")
     with open(base + ".out") as f:
         out = f.read().split("\n")
     if out and out[-1] == "":
@@ -111,11 +116,11 @@ def _theorem_spans(path: str):
     return spans
 
 
-def lean_build(pid: str, timeout=1500):
-    """`lake build U3.Props.<pid> u3model`.  Returns dict(ok, failed=[theorem names], broken_files,
+def lean_build(pid: str, models=(), timeout=1500):
+    """`lake build U3.Props.<pid> u3-<model>…`.  Returns dict(ok, failed=[theorem names], broken_files,
     log).  A failure in a file other than the property file leaves every theorem undischarged."""
     t0 = time.time()
-    p = subprocess.run(["lake", "build", f"U3.Props.{pid}", "u3model"], cwd=LEAN,
+    p = subprocess.run(["lake", "build", f"U3.Props.{pid}"] + [f"u3-{m}" for m in models], cwd=LEAN,
                        stdout=subprocess.PIPE, stderr=subprocess.STDOUT, timeout=timeout)
     log = p.stdout.decode(errors="replace")
     names = theorems_of(pid)
@@ -158,7 +163,6 @@ def lean_sources():
         for f in fs:
             if f.endswith(".lean"):
                 yield os.path.join(root, f)
-    yield os.path.join(LEAN, "Main.lean")
 
 
 def lean_audit(pid: str, names: list[str], timeout=600):
